@@ -22,7 +22,7 @@ ASSUMPTIONS = ['supplied matrices are rotations (orthogonal, det +1) up to round
 def plan(tier):
     q = tier == 'quick'
     return [('trsurf', 300 if q else 6000, {}), ('trcl', 120 if q else 2500, {}), ('implicit', 80 if q else 1500, {}),
-            ('fill', 80 if q else 1500, {})]
+            ('fill', 80 if q else 1500, {}), ('trmodel', 600 if q else 15000, {})]
 
 
 def search_plan(tier, disagreements):
@@ -39,6 +39,15 @@ def _known(d, res):
 def run_case(stream, seed, ctx, params):
     rng = random.Random(seed)
     npts = params.get('npts', 250)
+    if stream == 'trmodel':
+        # Lean model of transformation() + conversion vs the code, one transformed card (tori excluded: the
+        # code classifies their axis with a tolerance, the model with equality)
+        from . import c02
+        kinds = [k for k in P.ELEMENTARY if k not in ('tx', 'ty', 'tz')]
+        kind = kinds[seed % len(kinds)]
+        mn, ps = (P.sq_card(rng) if kind == 'sq' else G.elementary(rng, [kind]))
+        m, cls = G.random_motion(rng)
+        return c02.compare_card(ctx, 'trmodel', mn, ps, 'trmodel', extra_dist={'trmodel:rot-' + cls: 1}, tr=m.nums())
     if stream == 'trsurf':
         if rng.random() < 0.7:
             kind = P.ELEMENTARY[seed % len(P.ELEMENTARY)]
@@ -113,4 +122,6 @@ def run_case(stream, seed, ctx, params):
     return run_deck(ctx, stream, d, [], rng, npts=npts)
 
 
-replay = replay_deck
+def replay(payload, ctx):
+    from . import c02
+    return c02.replay(payload, ctx)
